@@ -22,7 +22,7 @@ TAIL_B = bytes(8)
 
 
 def jobs(tier):
-    return [("dynunions", tier)] + [(tier, c) for c in defs.chunks(defs.space(tier, "medium"), 16)]
+    return [("dynunions", tier), ("unionforms", tier), ("longstrings", tier)] + [(tier, c) for c in defs.chunks(defs.space(tier, "medium"), 16)]
 
 
 def _streams(buf: bytes, p: int):
@@ -116,6 +116,124 @@ def dynamic_unions(tier) -> JobResult:
                                         f"{full!r} {T.__name__} {endian} compiled={compiled}: at offset {p} via {kind}: {got}; the same bytes on their own: {base}"))
                                     break
     res.samples.append({"dynamic_unions": DYN_UNIONS, "offsets": [1, 2, 5, 16]})
+    return res
+
+
+TOP_UNIONS = DYN_UNIONS + [
+    "union DU { uint8 a; uint16 b; uint32 c; };",
+    "struct pad_t { uint8 a; uint32 b; }; union DU { pad_t s; uint64 q; };",
+    "struct pad_t { uint8 a; uint32 b; }; union DU { uint64 q; pad_t s; uint8 r[8]; };",
+    "union DU { uint8 lo:4; uint8 hi:4; uint8 raw; };",
+    "union DU { uint16 arr[2]; char c[4]; struct { uint8 x; uint16 y; } in; };".replace(" in;", " inn;"),
+    "union DU { uint8 *p; uint32 v; };",
+]
+
+
+def union_forms(tier) -> JobResult:
+    """Top-level unions (fixed, padded first member, dynamic): every input object kind and call form gives the result of parsing a stream."""
+    from dissect.cstruct import cstruct
+
+    res = JobResult()
+    payloads = [b"\x03abc\x00\x07\x08\x09\x0a\x0b\x0c\x0d", b"\x00\x00\x00\x00\x01\x02\x03\x04\x05\x06\x07\x08", b"\x85\x81AB\x00CD\x00\xff\xfe\xfd\xfc", bytes(range(0xF0, 0xFC))]
+    for text in TOP_UNIONS:
+        for endian in "<>":
+            for align in (False, True):
+                for compiled in (False, True):
+                    cs = cstruct(endian=endian)
+                    try:
+                        cs.load(text, compiled=compiled, align=align)
+                    except Exception as e:  # noqa: BLE001
+                        res.violations.append(Violation("unionform:load-raises", "unionform:load-raises", {"unionform": text}, f"{text!r}: {e!r}"))
+                        continue
+                    T = cs.DU
+                    for pl in payloads:
+                        buf = pl + TAIL_A
+                        try:
+                            s0 = io.BytesIO(buf)
+                            v0 = T(s0)
+                            base = (repr(impl.norm(v0)), v0.dumps().hex() if not T.dynamic else None)
+                        except Exception as e:  # noqa: BLE001
+                            base = ("exc", type(e).__name__)
+                        forms = [
+                            ("T(bytes)", lambda: T(buf)),
+                            ("T(bytearray)", lambda: T(bytearray(buf))),
+                            ("T(memoryview)", lambda: T(memoryview(buf))),
+                            ("T(memoryview of bytearray)", lambda: T(memoryview(bytearray(buf)))),
+                            ("T(minstream)", lambda: T(MinStream(buf))),
+                            ("T.read(bytes)", lambda: T.read(buf)),
+                            ("T.read(bytearray)", lambda: T.read(bytearray(buf))),
+                            ("T.read(memoryview)", lambda: T.read(memoryview(buf))),
+                            ("T.read(stream)", lambda: T.read(io.BytesIO(buf))),
+                            ("T.reads(bytes)", lambda: T.reads(buf)),
+                            ("T.reads(bytearray)", lambda: T.reads(bytearray(buf))),
+                            ("cs.read(name,bytes)", lambda: cs.read("DU", buf)),
+                            ("cs.read(name,bytearray)", lambda: cs.read("DU", bytearray(buf))),
+                            ("cs.read(name,stream)", lambda: cs.read("DU", io.BytesIO(buf))),
+                        ]
+                        for fname, fn in forms:
+                            res.evaluations += 1
+                            res.states += 1
+                            res.transitions += 1
+                            res.nontrivial += 1
+                            try:
+                                v = fn()
+                                got = (repr(impl.norm(v)), v.dumps().hex() if not T.dynamic else None)
+                            except Exception as e:  # noqa: BLE001
+                                got = ("exc", type(e).__name__)
+                            if got != base:
+                                res.violations.append(Violation("unionform:differs", f"unionform:differs|{fname}",
+                                    {"unionform": text, "endian": endian, "align": align, "compiled": compiled, "form": fname, "payload": pl.hex()},
+                                    f"{text!r} {endian} align={align} compiled={compiled}: {fname} on {buf.hex()}: {got}; parsing a stream over the same bytes: {base}"))
+    res.samples.append({"unions": TOP_UNIONS, "forms": 14})
+    return res
+
+
+LONG_LENGTHS = sorted(set(range(0, 70)) | {126, 127, 128, 129, 254, 255, 256, 257, 258, 300, 511, 512, 513, 1023, 1024, 1025, 4095, 4096, 4097, 8191, 8192, 8193, 65535, 65536, 65537})
+
+
+def long_strings(tier) -> JobResult:
+    """Terminated arrays of every length in LONG_LENGTHS (buffer-size boundaries): value, and stream left exactly behind the terminator, at offsets 0 and 3,
+    stand-alone and followed by a field."""
+    from dissect.cstruct import cstruct
+
+    res = JobResult()
+    lengths = LONG_LENGTHS if tier == "thorough" else [n for n in LONG_LENGTHS if n <= 1025 or n in (4096, 4097, 65536, 65537)]
+    for endian in "<>":
+        for compiled in (False, True):
+            cs = cstruct(endian=endian)
+            cs.load("struct SC { uint8 h; char s[]; uint32 v; }; struct SW { uint8 h; wchar s[]; uint32 v; }; struct SB { uint8 h; uint8 s[]; uint32 v; }; struct SU { uint8 h; uint16 s[]; uint32 v; };", compiled=compiled)
+            bo = "little" if endian == "<" else "big"
+            for n in lengths:
+                body = bytes((i % 251) + 1 for i in range(n))
+                cases = {
+                    "SC": (b"\x11" + body + b"\x00", body),
+                    "SB": (b"\x11" + body + b"\x00", list(body)),
+                    "SW": (b"\x11" + b"".join(((b % 90) + 33).to_bytes(2, bo) for b in body) + b"\x00\x00", "".join(chr((b % 90) + 33) for b in body)),
+                    "SU": (b"\x11" + b"".join((b + 256).to_bytes(2, bo) for b in body) + b"\x00\x00", [b + 256 for b in body]),
+                }
+                for tn, (enc, val) in cases.items():
+                    enc = enc + (0x12345678).to_bytes(4, bo)
+                    for p in (0, 3):
+                        for kind, stream in _streams(JUNK_A[:p] + enc + TAIL_A, p):
+                            res.evaluations += 1
+                            res.states += 1
+                            res.transitions += 1
+                            if n >= 64:
+                                res.nontrivial += 1
+                            case = {"longstring": tn, "length": n, "endian": endian, "compiled": compiled, "offset": p, "via": kind}
+                            try:
+                                v = getattr(cs, tn)(stream)
+                                got = (int(v.h), impl.norm(v.s), int(v.v), stream.tell() - p)
+                            except Exception as e:  # noqa: BLE001
+                                res.violations.append(Violation("long:raises", f"long:raises|{tn}", case, f"{tn} with {n} elements at offset {p} via {kind}: {impl.exc_sig(e)} {e!r}"))
+                                break
+                            exp = (0x11, val, 0x12345678, len(enc))
+                            if got != exp:
+                                what = "value" if got[:3] != exp[:3] else "position"
+                                res.violations.append(Violation(f"long:{what}", f"long:{what}|{tn}", case,
+                                    f"{tn} {endian} compiled={compiled} with {n} elements at offset {p} via {kind}: v={got[2]:#x} consumed={got[3]}, expected v=0x12345678 consumed={len(enc)}; s ok: {got[1] == val}"))
+                                break
+    res.samples.append({"long_strings": "char/uint8/wchar/uint16 [] arrays", "lengths": lengths[-12:]})
     return res
 
 
@@ -240,6 +358,10 @@ def check_case(names, endian, align, res: JobResult, tier="quick", only_input=No
 def run(job) -> JobResult:
     if job[0] == "dynunions":
         return dynamic_unions(job[1])
+    if job[0] == "unionforms":
+        return union_forms(job[1])
+    if job[0] == "longstrings":
+        return long_strings(job[1])
     res = JobResult()
     tier, chunk = job
     for names in chunk:
@@ -252,6 +374,10 @@ def run(job) -> JobResult:
 def replay(case):
     if "dynunion" in case:
         return [v for v in dynamic_unions("thorough").violations if v.case == case]
+    if "unionform" in case:
+        return [v for v in union_forms("thorough").violations if v.case == case]
+    if "longstring" in case:
+        return [v for v in long_strings("thorough").violations if v.case == case]
     res = JobResult()
     check_case(tuple(case["atoms"]), case["endian"], case["align"], res, "thorough", only_input=case.get("input"))
     return res.violations
@@ -262,7 +388,8 @@ def meta(tier):
         "rule": "case = (definition, endian, align, reader, input, start offset p, junk filling, stream kind | call form | read history); "
         "p in {0,1,2,3,5,8,16,17} (multiples of the structure's alignment in aligned mode), two junk fillings before p and after the encoded "
         "extent, streams {BytesIO, minimal read/seek/tell class, BufferedReader}, 11 call forms over bytes/bytearray/memoryview/streams, "
-        "and up to 3 consecutive reads on one stream; oracle = model decode of the payload alone and tell()==p+size; non-trivial = p>0 or a "
+        "and up to 3 consecutive reads on one stream; top-level unions (dynamic, fixed, padded-struct first member) x 14 input kinds / call forms vs parsing a stream; "
+        "terminated arrays of char/uint8/wchar/uint16 of every length 0..69 and around 128..65536 at offsets 0 and 3; oracle = model decode of the payload alone and tell()==p+size; non-trivial = p>0 or a "
         "read after an earlier read",
         "bounds": {"definitions": "D(wide,2)+[EOF]" if tier == "quick" else "D(wide,2)+D(core,3)+[EOF]+long-run", "inputs_per_definition": 3 if tier == "quick" else 10},
         "assumptions": ["aligned structures are started at multiples of their own alignment (the statement's 'aligned p')"],
